@@ -81,6 +81,56 @@ def one_case(ctx, res, stream, files, verbose=False, preexisting=None, missing_a
             res.violate(stream, "failed creation wrote or altered the archive", case, {"had": None if preexisting is None else len(preexisting), "now": None if tape is None else len(tape)}, {"clause": "all_or_nothing"})
 
 
+def refused_case(ctx, res, kind, position, verbose):
+    """a source the injector refuses — it is the archive's own path, or its name is not ascii — at every position of the list:
+    non-zero status, no file of the directory changes (the source that is the archive keeps its bytes)"""
+    st = res.stream("refused_source")
+    d = ctx.fresh_dir()
+    ordinary = [("a.bas", b"10 REM\n"), ("b.dat", bytes(range(200))), ("c.bin", b"c" * 300)]
+    arc = "t.k7"
+    bad_path = None
+    if kind == "not_ascii_name":
+        bad, bad_path = "caf\u00e9.bas", "caf\u00e9.bas"
+    elif kind == "not_ascii_ext":
+        bad, bad_path = "abcdefg\u00e9.d\u00e9t", "abcdefg\u00e9.d\u00e9t"
+    elif kind == "is_archive_plain":
+        arc, bad, bad_path = "notes.bin", "notes.bin", "notes.bin"
+    elif kind == "is_archive_dotslash":
+        arc, bad, bad_path = "./notes.bin", "notes.bin", "notes.bin"
+    elif kind == "is_archive_dotslash_src":
+        arc, bad, bad_path = "notes.bin", "./sub/../notes.bin", "./sub/../notes.bin"
+        os.makedirs(os.path.join(d, "sub"))
+    elif kind == "is_archive_abs":
+        arc, bad, bad_path = os.path.join(d, "notes.bin"), os.path.join(d, "notes.bin"), os.path.join(d, "notes.bin")
+    else:  # the ,a option is not part of the path
+        arc, bad, bad_path = "prog.bas", "prog.bas,a", "prog.bas"
+    files = list(ordinary)
+    files.insert(position, (bad, b"the source that must survive" * 4))
+    world = []
+    for name, content in files:
+        path = bad_path if name == bad else name
+        with open(os.path.join(d, path), "wb") as f:
+            f.write(content)
+        world.append((path, content))
+    srcs = [n for n, _ in files]
+    before = T.snapshot(d)
+    status, out = T.tar(["-c"] + (["-v"] if verbose else []) + [arc] + srcs, cwd=d)
+    after = T.snapshot(d)
+    case = {"kind": kind, "position": position, "archive": arc if not os.path.isabs(arc) else "<abs>/notes.bin", "sources": [s if not os.path.isabs(s) else "<abs>/notes.bin" for s in srcs]}
+    st.see(case, nontrivial=True)
+    res.count(f"refused:{kind}:{status}")
+    changed = sorted(k for k in set(before) | set(after) if before.get(k) != after.get(k))
+    if status == "ok0":
+        res.violate("refused_source", "status 0 although a source cannot be archived (it is the archive itself / its name is not ascii)", case, out, {"clause": "refused_status", "kind": kind})
+    if changed:
+        res.violate("refused_source", "a refused creation wrote or altered a file (a source that is the archive must keep its bytes)", case, changed, {"clause": "all_or_nothing", "kind": kind})
+    mo = T.parse_outcome(drv([f"tape.inject {'v' if verbose else 'q'} {cps(arc)} {len(srcs)} " + " ".join(cps(s) for s in srcs)
+                              + "".join(f" {cps(p)} {hx(c)}" for p, c in world)])[0])
+    st.compared += 1
+    if mo["status"] != status or bool(mo["writes"]) != bool(changed):
+        res.disagree("refused_source", case, {"status": mo["status"], "wrote": bool(mo["writes"])}, {"status": status, "changed": changed})
+
+
 def tuned(rng, target, nfiles, tune_index):
     """a list of nfiles contents whose encoded size is exactly `target` when reachable (tuning file tune_index)"""
     sizes = [rng.choice([0, 1, 100, 254, 255, 600, rng.randint(0, 3000)]) for _ in range(nfiles)]
@@ -153,3 +203,7 @@ def run(ctx, res):
             files = [(f"m{i}.bin", T.content_for(rng, rng.choice([0, 10, 300]))) for i in range(n)]
             one_case(ctx, res, "missing_source", files, missing_at=idx, preexisting=rng.choice([None, b"old archive"]))
     res.sample({"missing_at": 0, "files": 1})
+    # refused sources (F26, F27) at every position
+    for kind in ("is_archive_plain", "is_archive_dotslash", "is_archive_dotslash_src", "is_archive_abs", "is_archive_bas_a", "not_ascii_name", "not_ascii_ext"):
+        for position in range(4):
+            refused_case(ctx, res, kind, position, verbose=(position % 2 == 1))
